@@ -14,6 +14,7 @@ from geometer.operators import angle, dist, harmonic_set
 from geometer.point import (
     LineTensor,
     Plane,
+    PlaneCollection,
     PlaneTensor,
     Point,
     PointCollection,
@@ -552,6 +553,8 @@ class PolygonTensor(PolytopeTensor):
             e = self._plane
             o = Point(*[0] * self.dim)
             if e.free_indices > 0:
+                # work on a copy, the cached planes of the polygons must not be replaced by the parallel planes
+                e = PlaneCollection(e)
                 ind = ~e.contains(o)
                 e[ind] = cast(PlaneTensor, e[ind]).parallel(o)
             elif not e.contains(o):
